@@ -343,6 +343,18 @@ Section WithEnv.
     end.
 End WithEnv.
 
+(** ** genesis export followed by import into a fresh chain (custom modules; the SDK modules' state —
+    accounts, balances, grants — is carried over by the SDK's own export/import, which is trusted) *)
+Section ExportImport.
+  Variable bech : bytes -> bytes.
+  Variable unbech : bytes -> option bytes.
+  Definition export_import (c : chain) : outcome chain :=
+    do g <- export_genesis bech (c_aol c);
+    do a <- init_genesis unbech g;
+    let d := init_did (export_did (c_did c)) [] in
+    Ok (with_did (with_aol c a) d).
+End ExportImport.
+
 (** ** blocks and histories *)
 (** x/authz BeginBlocker: grants whose expiration is not after the block time are removed *)
 Definition begin_block (e : env) (c : chain) : chain :=
